@@ -429,7 +429,13 @@ def check_wide(shape, vals, datas, acc):
         for sdt in (numpy.int8, numpy.int16, numpy.int32, numpy.uint16, numpy.uint32):
             if all((int(d.max()) if d.size else 0) <= numpy.iinfo(sdt).max for d in denses):
                 variants.append(("xcube", numpy.dtype(sdt).name + "-explicit", (lambda t: (lambda: xcube([d.astype(t) for d in denses], interacting_shape=shape)))(sdt)))
+        # inferred shape: the array cube over the narrowest unsigned dtype must find max + 1 categories per dimension (a maximum equal to the
+        # dtype's largest value included)
+        ishape = tuple(int(d.max()) + 1 for d in denses)
+        variants.append(("xcube", "unsigned-inferred", lambda: xcube(xin)))
+        variants.append(("xcube", "int64-inferred", lambda: xcube(denses)))
         for kind, variant, mk in variants:
+            want_shape = ishape if variant.endswith("-inferred") else tuple(shape)
             try:
                 f2, _, _, _, w2, _, _ = realise(N, ws, fs)
                 v, m = Q.normalise(Q.call_cube(mk(), agg, f2, w2, ignore, Q.PAIR), Q.PAIR)
@@ -437,8 +443,8 @@ def check_wide(shape, vals, datas, acc):
                 acc.violation("%s:%s:raised" % (kind, agg), dict(base, variant=variant), repr(e))
                 continue
             acc.count(kind + "_evals")
-            if tuple(v.shape) != tuple(shape):
-                acc.violation("%s:%s:differs" % (kind, agg), dict(base, variant=variant), "shape %r expected %r" % (v.shape, shape))
+            if tuple(v.shape) != want_shape:
+                acc.violation("%s:%s:differs" % (kind, agg), dict(base, variant=variant), "shape %r expected %r" % (v.shape, want_shape))
                 continue
             bad = None
             if int((~m).sum()) != nvalid:
